@@ -31,6 +31,18 @@ Space (enumerated completely):
      / refine repeated until no column or node name of the alphabet is free, and once more: the operation that needs a
      name past capacity must raise NamingConventionError (not return quietly, not duplicate / truncate a name, not drop
      a column); before that it must succeed and keep names distinct, of the convention's length, and the plan area;
+  RJ name-generating operations on a geometry whose justification is no longer the one it was built (or first asked)
+     with: rectangular 3x3x2 (thorough also 2x2x1) x 4 conventions x justify {r, l} x atmosphere type {0, 2} (thorough
+     0..2) x lower (thorough also upper) case; first operation in {none, read right_justified_names / uppercase_names,
+     split_column, subdivide_column, refine_layers, refine, triangulate_column}; ALL columns renamed to the other
+     justification by rename_column (one call with lists / one call per column; thorough also there and back again);
+     node names kept or re-justified too; second operation in {split_column, subdivide_column, refine_layers, refine,
+     triangulate_column} (the node-making ones only with re-justified nodes); and the steps of rectangular() done by
+     hand on an empty mulgrid (with / without reading the two properties at every stage before the layers exist)
+     followed by each second operation.  After every operation all name clauses, the block clauses and one write +
+     mulgrid(filename) cycle (no column / node / layer lost to names differing only in padding); the names after the
+     last operation must equal those of a geometry built directly with the final justification (order independence;
+     not for histories containing refine, whose choice among free names varies with set order);
   F  fix_blockname / unfix_blockname / fix_block_mapping on all 7776 five-character strings over {a,B,0,1,9,blank}
      (thorough: also all 100000 over a 10-letter alphabet) and on every block name of every geometry built above.
 Oracle: the property statement (distinct names of the convention's length; explicit NamingConventionError exactly when
@@ -53,7 +65,9 @@ RULE = ('name generators: every integer 0..20000 x 4 conventions x 2 justificati
         'justifications x 13 (chars, case) pairs x blanks allowed or not, each also re-read from its own file, plus the listed capacity-edge geometries (a case = one '
         'geometry, all of its names and blocks checked; distinct = (options, size)); fix/unfix: every 5-character string over '
         'the stated alphabet; generator calls 0..1100 (thorough 0..5000) repeated on objects that reached the options by '
-        'another route (7 primers per option combination, 12 convention pairs after rectangular()). Non-trivial = the call is made with an integer/size for which the statement fixes the '
+        'another route (7 primers per option combination, 12 convention pairs after rectangular()); re-justified histories: every '
+        '(first operation, rename route, node treatment, second operation) on the stated grids x convention x justify x '
+        'atmosphere type (a case = one history of 1-3 operations, every name checked after each). Non-trivial = the call is made with an integer/size for which the statement fixes the '
         'outcome (a name, or the naming error) - all cases are.')
 ASSUMPTIONS = ['alphabets handed to the name generators directly have no repeated letter; every constructor (rectangular, '
                'from_gmsh, from_layermesh, from_amesh) and add_layers is handed a repeated-letter alphabet ("abcab") and '
@@ -70,13 +84,21 @@ ASSUMPTIONS = ['alphabets handed to the name generators directly have no repeate
                'the quantifier names the capacity limits as part of the space in which names must exist',
                'only names are asserted, never which name a number gets; geometry, areas and connections belong to other '
                'properties',
+               're-justified histories: every column is renamed (a geometry with columns of both justifications is not '
+               'claimed to name consistently); the library has no rename_node, so node-making operations are applied after '
+               'a re-justification only when the node names were re-justified as well (through node.name / geo.node); '
+               'no name-generating operation is applied before the geometry has layers (without blocks the library '
+               'cannot know the justification)',
                'valid block names = the documented TOUGH2 form (3 free characters, digit-or-blank, digit); for other '
                '5-character strings only idempotence, one-step stabilisation and absence of exceptions are asserted']
 BOUNDS = {'quick': {'integers': '0..20000', 'layer_counts': '1..120 + capacity edges <= 2000', 'sizes': 'nx,ny 1..4 x nz in {1,3} + 4 edge sizes',
-                    'edge_geometries': 'up to 1369 nodes', 'fix_unfix_alphabet': '6 letters (7776 strings)'},
+                    'edge_geometries': 'up to 1369 nodes', 'fix_unfix_alphabet': '6 letters (7776 strings)',
+                    'rejustified_histories': '3x3x2 grid, atmos {0,2}, lower case, 7 first x 5 second operations, 2 rename routes + stepwise build'},
           'thorough': {'integers': '0..20000', 'layer_counts': '1..120 + all capacity edges', 'sizes': 'nx,ny 1..6 x nz 1..4 + 4 edge sizes',
                        'edge_geometries': 'up to 18279 nodes / 18278 layers',
-                       'fix_unfix_alphabet': '6 letters (7776 strings) and 10 letters (100000 strings)'}}
+                       'fix_unfix_alphabet': '6 letters (7776 strings) and 10 letters (100000 strings)',
+                       'rejustified_histories': '2x2x1 and 3x3x2 grids, atmos 0..2, lower and upper case, 7 first x 5 second operations, '
+                                                '3 rename routes (one there and back) + stepwise build'}}
 TECHNIQUE = ('bounded exhaustive enumeration (every integer x naming option; every small geometry x option; capacity-edge '
              'geometries; every 5-character name) on the real naming functions against capacity and (A3,I2) reference models')
 LEVEL_TEXT = ('Every generator integer 0..20000 under every naming option, every rectangular geometry of the size box under '
@@ -1273,9 +1295,9 @@ def run_ED(unit, tier, rec):
 RJ_FIRST = ('none', 'query', 'split', 'subdivide', 'refine_layers', 'refine', 'triangulate')
 RJ_SECOND = ('split', 'subdivide', 'refine_layers', 'refine', 'triangulate')
 RJ_NODE_OPS = ('refine', 'triangulate')
-RJ_CHARSETS = {'quick': ('lower',), 'thorough': ('lower', 'upper', 'custom27')}
+RJ_CHARSETS = {'quick': ('lower',), 'thorough': ('lower', 'upper')}
 RJ_ATMOS = {'quick': (0, 2), 'thorough': (0, 1, 2)}
-RJ_GRIDS = {'quick': ((3, 3, 2),), 'thorough': ((2, 2, 1), (3, 3, 2), (4, 3, 3))}
+RJ_GRIDS = {'quick': ((3, 3, 2),), 'thorough': ((2, 2, 1), (3, 3, 2))}
 RJ_ROUTES = {'quick': ('rename-list', 'rename-one-by-one', 'stepwise-build'),
              'thorough': ('rename-list', 'rename-one-by-one', 'rename-there-and-back', 'stepwise-build')}
 
@@ -1707,7 +1729,9 @@ def finalize(rec, tier):
             'dimensions': {'integer': 'crossed 0..20000', 'convention': 'crossed', 'atmosphere_type': 'crossed',
                            'justify': 'crossed', 'alphabet': 'crossed over the listed alphabets',
                            'spaces': 'crossed', 'size': 'crossed in the size box; capacity edges listed explicitly',
-                           'five_character_names': 'crossed over the stated alphabet'}}
+                           'five_character_names': 'crossed over the stated alphabet',
+                           'history': 'first operation x re-justification route x node treatment x second operation, crossed '
+                                      'on the stated grids (RJ units)'}}
 
 
 def replay(case):
